@@ -43,6 +43,8 @@ CLI_INPUTS = [
     b"h\x00t\x00t\x00p\x00:\x00/\x00/\x00a\x00.\x00c\x00o\x00m\x00/\x00x\x00",
     b"687474703a2f2f6578616d706c652e636f6d2f61 FromBase64String('R1ZASA==') -bxor 35",
     bytes(range(256)),
+    b"x = chr(72)chr(105)\n",
+    b'StrReverse("dc")StrReverse("ba") chr(65)\'b\'+\'c\'',
 ]
 
 
